@@ -41,8 +41,8 @@ type c10Item struct {
 	json    []byte
 	query   url.Values
 	env     *codecEnv // set for modelled (dynamic) types: decoded messages are normalised before digesting
-	encWant string // digest of canonical JSON | "error: ..."
-	decWant string // digest of decoded message | "error: ..."
+	encWant string    // digest of canonical JSON | "error: ..."
+	decWant string    // digest of decoded message | "error: ..."
 	qryWant string
 }
 
@@ -164,7 +164,7 @@ func buildC10Pool() *c10Pool {
 	// types the schema reader rejects, used beside the accepted ones: a failing first use takes the same
 	// path through the cache (placeholder, build, clean-up) as a succeeding one
 	badSrc := map[string]string{
-		"verif/bad/v1/bad.proto":   "syntax = \"proto3\";\npackage verif.bad.v1;\nmessage BadMap { map<int32, string> m = 1; string s = 2; }\nmessage Fine { string s = 1; int64 n = 2; }\nmessage HoldsBad { BadMap bad = 1; Fine fine = 2; }\n",
+		"verif/bad/v1/bad.proto":  "syntax = \"proto3\";\npackage verif.bad.v1;\nmessage BadMap { map<int32, string> m = 1; string s = 2; }\nmessage Fine { string s = 1; int64 n = 2; }\nmessage HoldsBad { BadMap bad = 1; Fine fine = 2; }\n",
 		"verif/bad2/v1/use.proto": "syntax = \"proto3\";\npackage verif.bad2.v1;\nimport \"verif/bad/v1/bad.proto\";\nmessage UsesBad { verif.bad.v1.BadMap bad = 1; string s = 2; }\nmessage UsesFine { verif.bad.v1.Fine fine = 1; repeated verif.bad.v1.Fine more = 2; }\nmessage UsesHolder { verif.bad.v1.HoldsBad h = 1; }\n",
 	}
 	badCT, err := compileProtoText(badSrc)
